@@ -64,6 +64,7 @@ Inductive case :=
 (* document (None = nil *TypedData), math/big table, observed class, digest, independently
    published digest if there is one *)
 | CDoc (d : option ddoc) (big : list (bdsl * option Z)) (cls : nat) (digest : bdsl) (published : option bdsl)
+       (with_spec : bool)    (* false: model only (variants whose digest the harness compares with the base document's) *)
 (* SignTypedDataV4: document, table, what SignDirect returns for the digest (R,S,V), observed class,
    hash, signatureRSV, V, R, S *)
 | CSign (d : option ddoc) (big : list (bdsl * option Z)) (sig : option (Z * Z * Z)) (cls : nat)
@@ -114,24 +115,27 @@ Definition spec_digest (big : list (bdsl * option Z)) (d : option ddoc) : option
 Definition check_case (c : case) : N :=
   match c with
   | CKeccak i d => if bytes_eqb (keccak256 (bexpand i)) (bexpand d) then 0 else 5
-  | CDoc d big c dg pub =>
+  | CDoc d big c dg pub ws =>
       let impl := bexpand dg in
-      let sp := spec_digest big d in
-      match sp, pub with
-      | Some s, Some p => if bytes_eqb s (bexpand p) then 0 else 6       (* the spec misses its anchor *)
-      | None, Some _ => 6
-      | _, None => 0
-      end +
-      match sp with
-      | Some s => if negb (c =? 0)%nat then 11                            (* well-formed document refused / panicked *)
-                  else if negb (bytes_eqb s impl) then 10 else 0          (* digest <> EIP-712 *)
-      | None => 0
-      end +
-      match run_doc big d with
-      | Ok m => if (c =? 0)%nat then (if bytes_eqb m impl then 0 else 2) else 1
-      | Err _ => if (c =? 1)%nat then 0 else 1
-      | Panic => if (c =? 2)%nat then 0 else 1
-      end
+      let sp := if ws then spec_digest big d else None in
+      let anchor : N := match sp, pub with
+                        | Some s, Some p => if bytes_eqb s (bexpand p) then 0%N else 6%N       (* the spec misses its anchor *)
+                        | None, Some _ => 6%N
+                        | _, None => 0%N
+                        end in
+      let prop : N := match sp with
+                      | Some s => if negb (c =? 0)%nat then 11%N                             (* well-formed document refused / panicked *)
+                                  else if negb (bytes_eqb s impl) then 10%N else 0%N           (* digest <> EIP-712 *)
+                      | None => 0%N
+                      end in
+      let corr : N := match run_doc big d with
+                      | Ok m => if (c =? 0)%nat then (if bytes_eqb m impl then 0%N else 2%N) else 1%N
+                      | Err _ => if (c =? 1)%nat then 0%N else 1%N
+                      | Panic => if (c =? 2)%nat then 0%N else 1%N
+                      end in
+      (* a failing property oracle is reported first (it is a concrete failing input), then a spec that
+         misses its anchor, then a model/implementation difference *)
+      if negb (prop =? 0)%N then prop else if negb (anchor =? 0)%N then anchor else corr
   | CSign d big sig c h rsv v r s =>
       match SignTypedDataV4 keccak256 (table big) (fun _ => sig) (option_map expand_doc d) with
       | Ok res =>
